@@ -24,10 +24,10 @@
 #include "vcrash.h"
 
 const char *verif_property = "C03";
-const char *verif_class_names[] = { "A_died_during_handshake", "A_died_connected_idle", "A_died_with_requests_queued", "A_died_mid_request", "A_died_in_disconnect", "A_completed", "A_partial_send", "A_killed_inside_server_callback",
+const char *verif_class_names[] = { "A_died_during_handshake", "A_died_connected_idle", "A_died_with_requests_queued", "A_died_mid_request", "A_died_in_disconnect", "A_completed", "A_partial_send", "A_killed_inside_server_callback", "A_closed_asked_for_rerun",
 	"B_died_before_ready", "B_died_during_handshake", "B_died_while_client_waited_forever", "B_died_while_client_waited_finite", "B_killed_between_calls", "B_survived", "B_later_call_checked",
 	"B_shm_cleanup_checked", "shm", "socket", NULL };
-enum { KA_HANDSHAKE, KA_IDLE, KA_QUEUED, KA_MID, KA_DISC, KA_DONE, KA_PARTIAL, KA_INCB, KB_NOTREADY, KB_HANDSHAKE, KB_FOREVER, KB_FINITE, KB_KILLED, KB_SURVIVED, KB_LATER, KB_CLEAN, K_SHM, K_SOCK };
+enum { KA_HANDSHAKE, KA_IDLE, KA_QUEUED, KA_MID, KA_DISC, KA_DONE, KA_PARTIAL, KA_INCB, KA_RETRY, KB_NOTREADY, KB_HANDSHAKE, KB_FOREVER, KB_FINITE, KB_KILLED, KB_SURVIVED, KB_LATER, KB_CLEAN, K_SHM, K_SOCK };
 const char *verif_rule =
 	"case = part (A client dies / B server dies), transport, script of the victim (A: answered requests, requests left queued, events, proper disconnect or not; B: which requests are answered), "
 	"crash point K = index of the libc call before which the victim stops (enumerated 0..N for fixed scripts, random otherwise) with optional partial send, server step choices (A) or client call "
@@ -51,7 +51,8 @@ static void msleep(int ms) { struct timespec ts = { ms / 1000, (ms % 1000) * 100
 
 /* =====================================================  part A: the client dies  ===== */
 enum { ST_ACCEPTED, ST_CREATED, ST_CLOSED, ST_DESTROYED };
-struct aconn { qb_ipcs_connection_t *p; bool control; int st; int destroyed; int closed; int msgs; };
+struct aconn { qb_ipcs_connection_t *p; bool control; int st; int destroyed; int closed; int msgs; int retries_left; bool closed_final; };
+static int a_closed_retries;	/* how often connection_closed asks to be run again for the victim (documented: non-zero = call me again) */
 static std::vector<aconn> AC;
 static bool next_is_control;
 static pid_t a_victim; static int a_kill_in; static bool a_dead; static int a_status;	/* kill the victim from inside a server callback: 1 accept, 2 created, 3 msg_process */
@@ -65,7 +66,7 @@ static void a_kill(int where)
 static qb_ipcs_service_t *S;
 
 static aconn *a_find(qb_ipcs_connection_t *c) { for (auto it = AC.rbegin(); it != AC.rend(); ++it) if (it->p == c && it->st != ST_DESTROYED) return &*it; return NULL; }
-static int32_t a_accept(qb_ipcs_connection_t *c, uid_t, gid_t) { AC.push_back(aconn{ c, next_is_control, ST_ACCEPTED, 0, 0, 0 }); VLOG(R, "  [cb] accept (%s)\n", next_is_control ? "control" : "victim"); if (!next_is_control) a_kill(1); return 0; }
+static int32_t a_accept(qb_ipcs_connection_t *c, uid_t, gid_t) { AC.push_back(aconn{ c, next_is_control, ST_ACCEPTED, 0, 0, 0, next_is_control ? 0 : a_closed_retries, false }); VLOG(R, "  [cb] accept (%s)\n", next_is_control ? "control" : "victim"); if (!next_is_control) a_kill(1); return 0; }
 static void a_created(qb_ipcs_connection_t *c) { aconn *a = a_find(c); if (a) a->st = ST_CREATED; VLOG(R, "  [cb] created\n"); if (a && !a->control) a_kill(2); }
 static int32_t a_msg(qb_ipcs_connection_t *c, void *data, size_t size)
 {
@@ -84,10 +85,12 @@ static int32_t a_msg(qb_ipcs_connection_t *c, void *data, size_t size)
 static int32_t a_closed(qb_ipcs_connection_t *c)
 {
 	aconn *a = a_find(c);
-	VLOG(R, "  [cb] closed (%s)\n", a && a->control ? "control" : "victim");
+	VLOG(R, "  [cb] closed (%s)%s\n", a && a->control ? "control" : "victim", a && a->retries_left > 0 ? " -> asks to be called again" : "");
 	if (!a) { VFAIL(R, "closed-after-destroyed", "connection_closed for a connection that is already destroyed"); return 0; }
-	if (a->st != ST_CREATED) VFAIL(R, "closed-order", "connection_closed for a connection in state %d (created never reported, or closed twice)", a->st);
+	if (a->st != ST_CREATED && !(a->st == ST_CLOSED && !a->closed_final)) VFAIL(R, "closed-order", "connection_closed for a connection in state %d (created never reported, or closed again after it had returned 0)", a->st);
 	a->st = ST_CLOSED; a->closed++;
+	if (a->retries_left > 0) { a->retries_left--; VCLASS(R, KA_RETRY); return -EAGAIN; }
+	a->closed_final = true;
 	return 0;
 }
 static void a_destroyed(qb_ipcs_connection_t *c)
@@ -96,6 +99,7 @@ static void a_destroyed(qb_ipcs_connection_t *c)
 	VLOG(R, "  [cb] destroyed (%s)\n", a && a->control ? "control" : "victim");
 	if (!a) { VFAIL(R, "destroyed-twice", "connection_destroyed for a connection that is already destroyed (or was never accepted)"); return; }
 	if (a->st == ST_CREATED) VFAIL(R, "destroyed-without-closed", "connection_destroyed without connection_closed for a connection that had been reported as created");
+	else if (a->st == ST_CLOSED && !a->closed_final) VFAIL(R, "destroyed-before-closed-done", "connection_destroyed although connection_closed had asked to be called again");
 	a->st = ST_DESTROYED; a->destroyed++;
 }
 
@@ -143,7 +147,7 @@ static bool control_roundtrip(qb_ipcc_connection_t *ctl, const char *when)
 
 static void part_a(struct verif_report *r, enum qb_ipc_type type, const ascript &sc, long K, int partial, bool lazy, int kill_in)
 {
-	a_victim = 0; a_kill_in = kill_in; a_dead = false;
+	a_victim = 0; a_kill_in = kill_in; a_dead = false;	/* a_closed_retries is set by the caller */
 	DISP.clear(); JOBS.clear(); AC.clear();
 	std::string name = ipc_name();
 	struct qb_ipcs_service_handlers sh = { a_accept, a_created, a_msg, a_closed, a_destroyed };
@@ -457,7 +461,7 @@ extern "C" int verif_case(const uint8_t *data, size_t size, struct verif_report 
 		}
 		VCLASS(r, type == QB_IPC_SHM ? K_SHM : K_SOCK);
 		vop(r, first, type, si); vop(r, K, 0, 0);
-		if (first == 0xA0) { VLOG(r, "part A (client dies), %s, fixed script %u, crash point %ld\n", type == QB_IPC_SHM ? "shm" : "socket", si, K); part_a(r, type, FIXED[si], K, partial, si == 3, kin); }
+		if (first == 0xA0) { VLOG(r, "part A (client dies), %s, fixed script %u, crash point %ld\n", type == QB_IPC_SHM ? "shm" : "socket", si, K); a_closed_retries = si == 2 ? 2 : si == 1 ? 1 : 0; part_a(r, type, FIXED[si], K, partial, si == 3, kin); }
 		else { VLOG(r, "part B (server dies), %s, crash point %ld\n", type == QB_IPC_SHM ? "shm" : "socket", K); part_b(r, type, K, partial); }
 		return 0;
 	}
@@ -475,7 +479,8 @@ extern "C" int verif_case(const uint8_t *data, size_t size, struct verif_report 
 		vop(r, 0xA, type, K); vop(r, sc.n_sync, sc.n_queued, sc.events * 2 + sc.proper_disconnect); vop(r, partial, lazy, sc.linger_ms);
 		VLOG(r, "part A (client dies), %s: %d answered request(s)%s, %d queued, %s, crash point %ld%s%s\n", type == QB_IPC_SHM ? "shm" : "socket", sc.n_sync, sc.events ? " (first asks for events)" : "",
 		     sc.n_queued, sc.proper_disconnect ? "disconnects" : "just exits", K, partial >= 0 ? " with a partial send" : "", lazy ? "; the server leaves queued requests alone until the client is dead" : "");
-		vop(r, kin, 0, 0);
+		a_closed_retries = vr_u8(&V) % 3 == 0 ? 1 + (int)(vr_u8(&V) % 3) : 0;
+		vop(r, kin, a_closed_retries, 0);
 		part_a(r, type, sc, K, partial, lazy, kin);
 	} else {
 		vop(r, 0xB, type, K); vop(r, partial, 0, 0);
